@@ -43,6 +43,17 @@ CLAIMED = {
             "M finished, every message beyond M waiting with identical parameters; run-on-enqueue mode of the testing "
             "plugin returns after exactly that job ran once.",
             FAKES, "DESIGN.md 4 C10"),
+    "C05": ("model_checking", "exhaustive grid of due offsets x clock phase x consumer polling phase x broker, enqueue sweep",
+            "Due offsets from the past to 100 years x 4 positions inside the clock second x 5 consumer modes, all "
+            "ordered delay pairs, and the enqueue instant swept over a polling period: a normal consumer never gets "
+            "the message earlier than 1 ms before its due time, gets it within L afterwards, and before that only the "
+            "delayed category shows it.",
+            FAKES + " L = 2.5 s (in-memory, Redis), 0.5 s (RabbitMQ). Far-future cases step the wall clock.", "DESIGN.md 4 C05"),
+    "C12": ("model_checking", "exhaustive grid ttl x delivery instant around the expiry x message kind x broker",
+            "A worker starts listening exactly at expiry -0.5 s, -1 ms, 0, +1 ms, +0.5 s for immediate, delayed, retried "
+            "and rescheduled messages; a per-iteration monitor records when the message is dead-lettered: never "
+            "executed after expiry, never dead-lettered at or before it, expired messages readable from the dead category.",
+            FAKES, "DESIGN.md 4 C12"),
 }
 
 PENDING_REASON = "check not built yet in this revision of /verif (see DESIGN.md section 4 for the plan)"
